@@ -169,11 +169,10 @@ async fn extract_full_body(content_length: Option<u64>, body: &mut Body) -> S3Re
         .await
         .map_err(|e| S3Error::with_source(S3ErrorCode::InternalError, e))?;
 
-    if bytes.is_empty().not() {
-        let content_length = content_length.ok_or(S3ErrorCode::MissingContentLength)?;
-        if bytes.len() as u64 != content_length {
-            return Err(s3_error!(IncompleteBody));
-        }
+    match content_length {
+        Some(content_length) if bytes.len() as u64 != content_length => return Err(s3_error!(IncompleteBody)),
+        None if bytes.is_empty().not() => return Err(S3ErrorCode::MissingContentLength.into()),
+        _ => {}
     }
 
     Ok(bytes)
